@@ -608,16 +608,64 @@ pub fn check_c16(ctx: &Ctx, c: &Call, st: &mut Stats) -> Result<(), Fail> {
     Ok(())
 }
 
+
+/// C16 at generator level: the type-confusion contract for the snapshots the generator really hands over
+/// (lists that name the type-confusion mutator once; the other mutators' post_process does nothing)
+pub fn check_c16_gen(ctx: &Ctx, c: &crate::case::GenCase, st: &mut Stats) -> Result<(), Fail> {
+    let tc: Vec<usize> = c.mutators.iter().enumerate().filter(|(_, m)| **m == MutK::Typeconfusion).map(|(i, _)| i).collect();
+    if tc.len() != 1 || !c.unsafe_mutations {
+        st.label("generation without exactly one unsafe type-confusion mutator (skipped)");
+        return Ok(());
+    }
+    let a = crate::analysis::analyze(c, crate::analysis::Want { spy: true, ..Default::default() });
+    if a.result.is_err() {
+        st.label("generation-failed(skipped; C09 decides)");
+        return Ok(());
+    }
+    let mut fired = 0usize;
+    for e in a.spy.iter().filter(|e| e.idx == tc[0]) {
+        let Some((emission, tail)) = &e.post_io else { continue };
+        if emission.is_empty() {
+            continue;
+        }
+        let call = Call { mutator: MutK::Typeconfusion, unsafe_mode: true, val: Val::Post { prefix: vec![], emission: emission.clone(), again: 0 }, rate_bits: c.rate.value().to_bits(), src: Src::Rng(0) };
+        let res = Res::Post { ret: e.fired, output: tail.clone() };
+        if let Err(f) = c16_contract(&call, &res) {
+            return ctx.fail(st, Fail::new(format!("gen:{}", f.sig), format!("{}: inside a generation: {}", c.brief(), f.msg)));
+        }
+        if e.fired {
+            fired += 1;
+        }
+    }
+    st.add("type-confusion post_process calls judged inside generations", a.spy.iter().filter(|e| e.idx == tc[0] && e.post_io.is_some()).count() as u64);
+    if fired > 0 {
+        st.nontrivial(util::digest(a.output().unwrap()) ^ 0x16);
+    }
+    Ok(())
+}
+
 pub fn run_c16(ctx: &Ctx) -> Outcome {
     let mut out = Outcome::new(
         "Direct calls of the public Mutator trait methods: mutator kind x creation flag (safe/unsafe) x method x value (i32/i64 boundaries + \
          random, strings/byte strings up to 64 items incl. empty and non-ASCII, memo indices incl. 0/255/256/usize::MAX, post_process on a \
          well-formed emission of every opcode byte 0..255) x rate in {0, 0.5, 1} x entropy (PRNG seeds, fuzzer byte strings incl. empty / \
          short / special f64 first draws). Oracle: independent restatement of each documented transformation, judged whenever the call \
-         fires; no call may panic. Non-trivial = fired on a boundary value, empty or non-ASCII input, multi-byte emission or exhausted entropy.",
+         fires; no call may panic. The type-confusion contract is also judged, through observing wrappers, for every post_process \
+         call inside 12 000 generations (the snapshots the generator really builds). Non-trivial = fired on a boundary value, empty or non-ASCII input, multi-byte emission or exhausted entropy.",
     );
     let r = run_prop(ctx, 1, ctx.n(400_000, 20_000_000), || call_strategy(vec![0.0, 0.5, 1.0, 1.0]), |c: &Call, st: &mut Stats| check_c16(ctx, c, st));
     out.absorb(r);
+    // the same contract for the snapshots the generator itself builds (simulated stack and memo deltas included)
+    if !out.failed() {
+        let mut p = crate::case::Profile::full();
+        p.unsafe_mode = crate::case::UnsafeMode::Always;
+        p.rate = crate::case::RateMode::InRange;
+        p.favour = vec![MutK::Boundary, MutK::Typeconfusion];
+        p.favour_pct = 60;
+        p.need_mutator = true;
+        let r = run_prop(ctx, 7, ctx.n(12_000, 400_000), || crate::case::gencase(&p), |c: &crate::case::GenCase, st: &mut Stats| check_c16_gen(ctx, c, st));
+        out.absorb(r);
+    }
     // exhaustive part: every i32 boundary value x every int mutator x rate 1 x the special sources; every opcode byte for type confusion
     if !out.failed() {
         let mut items: Vec<Call> = Vec::new();
